@@ -385,7 +385,9 @@ class IndentAndNameChecker(BaseChecker):
         def is_hex(s: str) -> bool:
             return re.search(r"^0x[0-9a-fA-F]+$", s) is not None
 
-        line = line[: line.index("#")] + "\n" if "#" in line else line
+        # A comment starts at the first '#' that stands outside a quoted string (default "a#b" has none)
+        code = re.match(r"""(?:[^"'#]|"(?:\\.|[^"\\])*"|'(?:\\.|[^'\\])*')*""", line).end()
+        line = line[:code] + "\n" if line[code : code + 1] == "#" else line
         line_with_symbols = self.reg_switch.match(line)
 
         if line_with_symbols:
